@@ -146,40 +146,36 @@ def iwoCount (O : Ops F) (minSel maxSel : Nat) (worst best o : F) : Nat :=
   let bonusOffspring := O.ofNat (maxSel - minSel)
   minSel + if O.isNaN bonus || eqF best worst then O.floorNat (bonusOffspring / (1 + 1)) else O.floorNat (bonus * bonusOffspring)
 
-/-- Stochastic universal sampling, the pointer walk.  `susInner`: advance `i` while
-`sum_weights < distance` (`weights[i]` out of bounds panics: `none`). -/
-def susInner (distance : F) : (rest : List F) → (i : Nat) → (sumW : F) → Option (Nat × F × List F)
+/-- Stochastic universal sampling, the pointer walk: advance `i` while
+`sum_weights < distance && i + 1 < weights.len()` (`rest` = the weights after position `i`). -/
+def susInner (distance : F) : (rest : List F) → (i : Nat) → (sumW : F) → Nat × F × List F
   | rest, i, sumW =>
     if sumW < distance then
       match rest with
-      | [] => none
+      | [] => (i, sumW, [])
       | w :: rest' => susInner distance rest' (i + 1) (sumW + w)
-    else some (i, sumW, rest)
+    else (i, sumW, rest)
 
-/-- Outer loop `while distance < weights_total`, at most `fuel` rounds (`Err.exec` is never produced
-here; running out of fuel is reported as `none` = "does not terminate within fuel"). -/
-def susOuter (total gaps : F) : (fuel : Nat) → (distance : F) → (rest : List F) → (i : Nat) → (sumW : F) →
-    Option (Except Err (List Nat))
-  | 0, distance, _, _, _ => if distance < total then none else some (.ok [])
-  | fuel + 1, distance, rest, i, sumW =>
-    if distance < total then
-      match susInner distance rest i sumW with
-      | none => some (.error .panic)
-      | some (i', sumW', rest') =>
-        match susOuter total gaps fuel (distance + gaps) rest' i' sumW' with
-        | some (.ok is) => some (.ok (i' :: is))
-        | other => other
-    else some (.ok [])
+/-- `for k in 0..num_selected { distance = start + k as f64 * gaps; walk; push i }` — `cnt` points
+remain, the next one is the `k`-th. -/
+def susGo (O : Ops F) (start gaps : F) : (cnt k : Nat) → (rest : List F) → (i : Nat) → (sumW : F) → List Nat
+  | 0, _, _, _, _ => []
+  | cnt + 1, k, rest, i, sumW =>
+    let distance := start + O.ofNat k * gaps
+    let (i', sumW', rest') := susInner distance rest i sumW
+    i' :: susGo O start gaps cnt (k + 1) rest' i' sumW'
 
-/-- indices selected by SUS for weights `ws`, `n = num_selected`, uniform draw `u ∈ [0,1)`. -/
-def susIndices (O : Ops F) (ws : List F) (n : Nat) (u : F) : Option (Except Err (List Nat)) :=
+/-- indices selected by SUS for weights `ws`, `n = num_selected`, uniform draw `u`:
+`ensure!(weights_total > 0.0)`, then exactly `n` selection points. -/
+def susIndices (O : Ops F) (ws : List F) (n : Nat) (u : F) : Except Err (List Nat) :=
+  let total := sum ws
+  if ¬ (0 < total) then .error .exec else
   match ws with
-  | [] => some (.error .panic)           -- `weights[0]`
+  | [] => .error .panic                  -- `weights[0]` (unreachable: an empty list has total 0)
   | w0 :: rest =>
-    let total := sum ws
     let gaps := total / O.ofNat n
     let start := u * gaps
-    susOuter total gaps (n + 2) start rest 0 w0
+    .ok (susGo O start gaps n 0 rest 0 w0)
 
 end numeric
 
@@ -299,9 +295,8 @@ def select (O : Ops F) (op : Op F) (w : Witness F) (pop : Pop F) : Except Err (P
       | .ok none => .error .exec
       | .ok (some ws) =>
         match susIndices O ws n u with
-        | none => .error .panic            -- not reached within fuel; reported by the driver
-        | some (.error e) => .error e
-        | some (.ok is) => .ok (pick pop is)
+        | .error e => .error e
+        | .ok is => .ok (pick pop is)
   | .tournament _ size, .sets ss =>
     if pop.length < size then .error .exec else tournamentRounds pop ss
   | .linearRank _, .idx is =>
@@ -315,20 +310,24 @@ def select (O : Ops F) (op : Op F) (w : Witness F) (pop : Pop F) : Except Err (P
     match objectives pop with
     | none => .error .panic
     | some objs => sampleWeighted O pop (exponentialRankWeights O base (reverseRank objs)) is
-  | .deRand _, .sets ss =>
-    -- (0..len).flat_map(|_| population.choose_multiple(rng, 2y+1))
-    .ok (ss.flatMap fun s => pick pop s)
-  | .deBest _, .sets ss =>
+  | .deRand y, .sets ss =>
+    -- ensure!(len >= 2y+1); (0..len).flat_map(|_| population.choose_multiple(rng, 2y+1))
+    if pop.length < 2 * y + 1 then .error .exec else .ok (ss.flatMap fun s => pick pop s)
+  | .deBest y, .sets ss =>
+    -- ensure!(len >= 2y) comes before the best lookup
+    if pop.length < 2 * y then .error .exec else
     match best pop with
     | .error e => .error e
     | .ok none => .error .exec
     | .ok (some b) => .ok (ss.flatMap fun s => b :: pick pop s)
-  | .deCurrentToBest _, .sets ss =>
+  | .deCurrentToBest y, .sets ss =>
     match best pop with
     | .error e => .error e
     | .ok none => .error .exec
     | .ok (some b) =>
-      .ok ((pop.zip ss).flatMap fun (ind, s) => ind :: b :: pick (pop.filter (fun j => !sameInd j ind)) s)
+      -- per individual: ensure!(remaining.len() >= 2y-1); the first failure discards everything
+      if pop.any (fun ind => decide ((pop.filter (fun j => !sameInd j ind)).length < 2 * y - 1)) then .error .exec
+      else .ok ((pop.zip ss).flatMap fun (ind, s) => ind :: b :: pick (pop.filter (fun j => !sameInd j ind)) s)
   | .iwo minSel maxSel, _ =>
     -- ensure!(min_selected <= max_selected) comes first, before any objective is read
     if maxSel < minSel then .error .exec else
@@ -538,15 +537,18 @@ def violation (op : Op Float) (cur : FPop) (rest : List FPop) (stack' : List FPo
     | .randomWithoutRepetition n => len < n
     | .rouletteWheel _ _ | .sus _ _ => hasInf
     | .iwo a b => hasInf || b < a
+    | .deRand y => len < 2 * y + 1
+    | .deBest y => len < 2 * y
+    | .deCurrentToBest y => cur.any fun ind => decide ((cur.filter (fun j => !sameInd j ind)).length < 2 * y - 1)
     | .tournament _ size => len < size
     | _ => false
   let errAllowed : Bool := errRequired || match op with
     | .fullyRandom n => n > 0 && len == 0
-    | .rouletteWheel _ off =>
+    | .rouletteWheel _ off | .sus _ off =>
       len == 0 || match proportionalWeights floatOps objs off false with
         | .ok (some ws) => ws.all (fun x => x == 0)
         | _ => false
-    | .sus _ _ | .linearRank _ | .exponentialRank _ _ | .deBest _ | .deCurrentToBest _ | .iwo _ _ => len == 0
+    | .linearRank _ | .exponentialRank _ _ | .deBest _ | .deCurrentToBest _ | .iwo _ _ => len == 0
     | .tournament n size => size == 0 && n > 0
     | _ => false
   match res with
